@@ -413,6 +413,10 @@ func (priv *DSAPrivateKey) Sign(rand io.Reader, hashed []byte) ([]byte, error) {
 	if err == nil {
 		rBytes := r.Bytes()
 		sBytes := s.Bytes()
+		if len(rBytes) > 20 || len(sBytes) > 20 {
+			// the signature format of the protocol has room for a 160 bit q only
+			return nil, newOtrError("DSA key with a q of more than 160 bits cannot sign")
+		}
 
 		out := make([]byte, 40)
 		copy(out[20-len(rBytes):], rBytes)
